@@ -36,11 +36,13 @@ Threads == {LOOP, OBS, NOTIF} \cup UNION {{Sub(j), Env(j), Can(j)} : j \in Jobs}
 
 VARIABLES cfgS, cfgY, cfgFail, cfgK,
           pc, descs, lock, gate, evt, woken, fst, stage, calls, snap, pos, seen, wdl, edl, cdl, now,
+          cpos, cfound,   \* Bug = "dereg_in_place" only: index and result of a canceller's unlocked scan of the LIVE list
           obs, viol, hist, actor
 
 cfg  == <<cfgS, cfgY, cfgFail, cfgK>>
 vars == <<cfgS, cfgY, cfgFail, cfgK, pc, descs, lock, gate, evt, woken, fst, stage, calls, snap, pos, seen, wdl,
-          edl, cdl, now, obs, viol, hist, actor>>
+          edl, cdl, now, cpos, cfound, obs, viol, hist, actor>>
+scan == <<cpos, cfound>>
 
 RECURSIVE Feed(_, _, _)
 Feed(o, v, evs) ==
@@ -64,6 +66,7 @@ Init ==
   /\ fst = [j \in Jobs |-> "new"] /\ stage = [j \in Jobs |-> "none"]
   /\ calls = 0 /\ snap = <<>> /\ pos = 1 /\ seen = [j \in Jobs |-> 0]
   /\ wdl = -1 /\ edl = [j \in Jobs |-> -1] /\ cdl = -1 /\ now = 0
+  /\ cpos = [j \in Jobs |-> 0] /\ cfound = [j \in Jobs |-> FALSE]
   /\ obs = ObsNext(ObsInit, Ev("Cfg", "-", "main", 0, -1, -1, -1, -1, -1, CancelFn, <<>>))
   /\ viol = "ok" /\ hist = <<>> /\ actor = <<"-", 0>>
 
@@ -80,7 +83,7 @@ SSleep(j) ==
   /\ pc' = [pc EXCEPT ![Sub(j)] = "s_gate"]
   /\ Emit(<<E1("SubmitCall", "client", now, j)>>)
   /\ actor' = Sub(j)
-  /\ UNCHANGED <<cfg, descs, lock, gate, evt, woken, fst, stage, calls, snap, pos, seen, wdl, edl, cdl, now>>
+  /\ UNCHANGED <<scan, cfg, descs, lock, gate, evt, woken, fst, stage, calls, snap, pos, seen, wdl, edl, cdl, now>>
 
 G_SGate(j) == pc[Sub(j)] = "s_gate" /\ gate = NoOne
 SGate(j) ==    \* the whole of submit(): delegate.submit, PollFuture(...), return
@@ -92,7 +95,7 @@ SGate(j) ==    \* the whole of submit(): delegate.submit, PollFuture(...), retur
                       ![Can(j)] = IF cfgK[j] < 90000 THEN "c_sleep" ELSE "c_never"]
   /\ Emit(<<E1("SubmitRet", "client", now, j)>>)
   /\ actor' = Sub(j)
-  /\ UNCHANGED <<cfg, descs, lock, gate, evt, woken, calls, snap, pos, seen, wdl, cdl, now>>
+  /\ UNCHANGED <<scan, cfg, descs, lock, gate, evt, woken, calls, snap, pos, seen, wdl, cdl, now>>
 
 \* ------------------------------------------------------------------ delegate completion
 G_EFinish(j) == pc[Env(j)] = "e_sleep" /\ now >= edl[j]
@@ -113,7 +116,7 @@ EFinish(j) ==
               /\ Emit(<<E3("InvokeEnd", "env", now, j, 0, ResId(j))>>)
               /\ UNCHANGED <<fst, stage>>
   /\ actor' = Env(j)
-  /\ UNCHANGED <<cfg, descs, lock, gate, evt, woken, calls, snap, pos, seen, wdl, edl, cdl, now>>
+  /\ UNCHANGED <<scan, cfg, descs, lock, gate, evt, woken, calls, snap, pos, seen, wdl, edl, cdl, now>>
 
 G_EReg(j) == pc[Env(j)] = "e_reg" /\ lock = NoOne
 EReg(j) ==     \* with self._lock: append descriptor; future._clear_delegate(); next visible op: _poll_event.set()
@@ -123,7 +126,7 @@ EReg(j) ==     \* with self._lock: append descriptor; future._clear_delegate(); 
   /\ stage' = [stage EXCEPT ![j] = "polling"]
   /\ pc' = [pc EXCEPT ![Env(j)] = "e_regset"]
   /\ actor' = Env(j) /\ NoEmit
-  /\ UNCHANGED <<cfg, gate, evt, woken, fst, calls, snap, pos, seen, wdl, edl, cdl, now>>
+  /\ UNCHANGED <<scan, cfg, gate, evt, woken, fst, calls, snap, pos, seen, wdl, edl, cdl, now>>
 
 G_ERegSet(j) == pc[Env(j)] = "e_regset"
 ERegSet(j) ==
@@ -133,7 +136,7 @@ ERegSet(j) ==
   /\ pc' = [pc EXCEPT ![Env(j)] = "done"]
   /\ Emit(<<E2("DelegateDone", "env", now, j, 0)>>)
   /\ actor' = Env(j)
-  /\ UNCHANGED <<cfg, descs, gate, fst, stage, calls, snap, pos, seen, wdl, edl, cdl, now>>
+  /\ UNCHANGED <<scan, cfg, descs, gate, fst, stage, calls, snap, pos, seen, wdl, edl, cdl, now>>
 
 G_EDereg(j) == pc[Env(j)] = "e_dereg" /\ lock = NoOne
 EDereg(j) ==   \* _clear_executor -> _deregister_poll (nothing registered for a failed delegate)
@@ -142,7 +145,7 @@ EDereg(j) ==   \* _clear_executor -> _deregister_poll (nothing registered for a 
   /\ pc' = [pc EXCEPT ![Env(j)] = "done"]
   /\ Emit(<<E2("DelegateDone", "env", now, j, 1)>>)
   /\ actor' = Env(j)
-  /\ UNCHANGED <<cfg, lock, gate, evt, woken, fst, stage, calls, snap, pos, seen, wdl, edl, cdl, now>>
+  /\ UNCHANGED <<scan, cfg, lock, gate, evt, woken, fst, stage, calls, snap, pos, seen, wdl, edl, cdl, now>>
 
 \* ------------------------------------------------------------------ the poll loop
 \* run the poll function from descriptor position p on: returns <<events, next position, job to deregister or 0>>
@@ -200,7 +203,7 @@ LSnap ==       \* with self._lock: snapshot; then the poll function runs up to i
                   /\ pc' = [pc EXCEPT ![LOOP] = "l_call"] /\ cdl' = now + PollDur
                   /\ Emit(call) /\ UNCHANGED <<fst, pos, seen>>
   /\ actor' = LOOP
-  /\ UNCHANGED <<cfg, descs, lock, gate, evt, woken, stage, wdl, edl, now>>
+  /\ UNCHANGED <<scan, cfg, descs, lock, gate, evt, woken, stage, wdl, edl, now>>
 
 G_LCall == pc[LOOP] = "l_call" /\ now >= cdl
 LCall ==       \* ... the poll function comes to its yields / its raise
@@ -208,7 +211,7 @@ LCall ==       \* ... the poll function comes to its yields / its raise
   /\ snap' = snap /\ calls' = calls
   /\ RunFn(snap, calls, <<>>)
   /\ actor' = LOOP
-  /\ UNCHANGED <<cfg, descs, lock, gate, evt, woken, stage, wdl, edl, cdl, now>>
+  /\ UNCHANGED <<scan, cfg, descs, lock, gate, evt, woken, stage, wdl, edl, cdl, now>>
 
 G_LDereg == pc[LOOP] = "l_dereg" /\ lock = NoOne
 LDereg ==      \* the resolved future's first callback: _deregister_poll; then the poll function continues
@@ -224,7 +227,7 @@ LDereg ==      \* the resolved future's first callback: _deregister_poll; then t
                   /\ UNCHANGED pc
                   /\ Emit(ret \o r[1])
   /\ actor' = LOOP
-  /\ UNCHANGED <<cfg, lock, gate, evt, woken, stage, calls, wdl, edl, cdl, now>>
+  /\ UNCHANGED <<scan, cfg, lock, gate, evt, woken, stage, calls, wdl, edl, cdl, now>>
 
 G_LRDereg == pc[LOOP] = "l_rdereg" /\ lock = NoOne
 LRDereg ==     \* after a raising poll function: the failed futures deregister one by one (executor._lock each)
@@ -235,7 +238,7 @@ LRDereg ==     \* after a raising poll function: the failed futures deregister o
           ELSE /\ descs' = SelectSeq(descs, LAMBDA x : x # left[1])
                /\ pc' = [pc EXCEPT ![LOOP] = IF Len(left) = 1 THEN "l_wait" ELSE "l_rdereg"]
   /\ actor' = LOOP /\ NoEmit
-  /\ UNCHANGED <<cfg, lock, gate, evt, woken, fst, stage, calls, snap, pos, seen, wdl, edl, cdl, now>>
+  /\ UNCHANGED <<scan, cfg, lock, gate, evt, woken, fst, stage, calls, snap, pos, seen, wdl, edl, cdl, now>>
 
 G_LEnter == pc[LOOP] = "l_wait"
 LEnter ==
@@ -243,7 +246,7 @@ LEnter ==
   /\ IF evt THEN /\ pc' = [pc EXCEPT ![LOOP] = "l_clear"] /\ UNCHANGED wdl
             ELSE /\ pc' = [pc EXCEPT ![LOOP] = "l_blocked"] /\ wdl' = now + Interval + 1
   /\ actor' = LOOP /\ NoEmit
-  /\ UNCHANGED <<cfg, descs, lock, gate, evt, woken, fst, stage, calls, snap, pos, seen, edl, cdl, now>>
+  /\ UNCHANGED <<scan, cfg, descs, lock, gate, evt, woken, fst, stage, calls, snap, pos, seen, edl, cdl, now>>
 
 G_LWake == pc[LOOP] = "l_blocked" /\ (woken \/ now >= wdl)
 LWake ==
@@ -251,7 +254,7 @@ LWake ==
   /\ woken' = FALSE
   /\ pc' = [pc EXCEPT ![LOOP] = "l_clear"]
   /\ actor' = LOOP /\ NoEmit
-  /\ UNCHANGED <<cfg, descs, lock, gate, evt, fst, stage, calls, snap, pos, seen, wdl, edl, cdl, now>>
+  /\ UNCHANGED <<scan, cfg, descs, lock, gate, evt, fst, stage, calls, snap, pos, seen, wdl, edl, cdl, now>>
 
 G_LClear == pc[LOOP] = "l_clear"
 LClear ==
@@ -259,35 +262,57 @@ LClear ==
   /\ evt' = FALSE
   /\ pc' = [pc EXCEPT ![LOOP] = "l_top"]
   /\ actor' = LOOP /\ NoEmit
-  /\ UNCHANGED <<cfg, descs, lock, gate, woken, fst, stage, calls, snap, pos, seen, wdl, edl, cdl, now>>
+  /\ UNCHANGED <<scan, cfg, descs, lock, gate, woken, fst, stage, calls, snap, pos, seen, wdl, edl, cdl, now>>
 
 \* ------------------------------------------------------------------ cancel()
+\* _run_cancel_fn looks the future's descriptor up WITHOUT the executor lock (the caller holds the future's lock, the
+\* poll thread takes them in the other order).  That is sound because _deregister_poll replaces the list by a new one
+\* (copy-on-write): the unlocked reader iterates over the object it started with, so its answer is the one of a single
+\* instant (`registered` below).  Bug = "dereg_in_place" (seeded change C08-r3m1) deletes the entry in place instead:
+\* the reader's index walks over the LIVE list, one element per step, and a deletion in front of it makes it skip one.
+CancelDecide(j, registered, call) ==
+  LET consult == stage[j] = "polling" /\ CancelFn # "none" /\ registered
+      fnevs == IF consult THEN <<E3("CancelFnCall", "canceller", now, j, -1, ResId(j)),
+                                 E2("CancelFnRet", "canceller", now, j,
+                                    IF CancelFn = "true" THEN 1 ELSE IF CancelFn = "false" THEN 0 ELSE 2)>>
+               ELSE <<>>
+      allowed == IF stage[j] = "delegate" THEN TRUE      \* manual delegate futures are cancellable while pending
+                 ELSE IF consult THEN CancelFn = "true" ELSE TRUE
+  IN IF fst[j] = "cancelled"
+       THEN /\ pc' = [pc EXCEPT ![Can(j)] = "done"] /\ UNCHANGED <<fst, stage>>
+            /\ Emit(call \o <<E2("CancelRet", "canceller", now, j, 1)>>)
+       ELSE IF fst[j] = "done" \/ stage[j] = "failed" \/ pc[Env(j)] \in {"e_reg"}
+         THEN \* finished, or the delegate is done but not yet registered: delegate.cancel() is False
+              /\ pc' = [pc EXCEPT ![Can(j)] = "done"] /\ UNCHANGED <<fst, stage>>
+              /\ Emit(call \o <<E2("CancelRet", "canceller", now, j, 0)>>)
+         ELSE IF allowed
+           THEN /\ fst' = [fst EXCEPT ![j] = "cancelled"]
+                /\ stage' = [stage EXCEPT ![j] = IF stage[j] = "delegate" THEN "dcancelled" ELSE stage[j]]
+                /\ pc' = [pc EXCEPT ![Can(j)] = "c_dereg"]
+                /\ Emit(call \o fnevs \o <<ESA("Observed", "canceller", now, j, "CANCELLED_AND_NOTIFIED", -1, -1)>>)
+           ELSE /\ pc' = [pc EXCEPT ![Can(j)] = "done"] /\ UNCHANGED <<fst, stage>>
+                /\ Emit(call \o fnevs \o <<E2("CancelRet", "canceller", now, j, 0)>>)
+
 G_CStart(j) == pc[Can(j)] = "c_sleep" /\ now >= cfgK[j]
 CStart(j) ==
   /\ G_CStart(j)
-  /\ LET call == <<E1("CancelCall", "canceller", now, j)>>
-         registered == \E i \in DOMAIN descs : descs[i] = j
-         consult == stage[j] = "polling" /\ CancelFn # "none" /\ registered
-         fnevs == IF consult THEN <<E3("CancelFnCall", "canceller", now, j, -1, ResId(j)),
-                                    E2("CancelFnRet", "canceller", now, j,
-                                       IF CancelFn = "true" THEN 1 ELSE IF CancelFn = "false" THEN 0 ELSE 2)>>
-                  ELSE <<>>
-         allowed == IF stage[j] = "delegate" THEN TRUE      \* manual delegate futures are cancellable while pending
-                    ELSE IF consult THEN CancelFn = "true" ELSE TRUE
-     IN IF fst[j] = "cancelled"
-          THEN /\ pc' = [pc EXCEPT ![Can(j)] = "done"] /\ UNCHANGED <<fst, stage>>
-               /\ Emit(call \o <<E2("CancelRet", "canceller", now, j, 1)>>)
-          ELSE IF fst[j] = "done" \/ stage[j] = "failed" \/ pc[Env(j)] \in {"e_reg"}
-            THEN \* finished, or the delegate is done but not yet registered: delegate.cancel() is False
-                 /\ pc' = [pc EXCEPT ![Can(j)] = "done"] /\ UNCHANGED <<fst, stage>>
-                 /\ Emit(call \o <<E2("CancelRet", "canceller", now, j, 0)>>)
-            ELSE IF allowed
-              THEN /\ fst' = [fst EXCEPT ![j] = "cancelled"]
-                   /\ stage' = [stage EXCEPT ![j] = IF stage[j] = "delegate" THEN "dcancelled" ELSE stage[j]]
-                   /\ pc' = [pc EXCEPT ![Can(j)] = "c_dereg"]
-                   /\ Emit(call \o fnevs \o <<ESA("Observed", "canceller", now, j, "CANCELLED_AND_NOTIFIED", -1, -1)>>)
-              ELSE /\ pc' = [pc EXCEPT ![Can(j)] = "done"] /\ UNCHANGED <<fst, stage>>
-                   /\ Emit(call \o fnevs \o <<E2("CancelRet", "canceller", now, j, 0)>>)
+  /\ LET call == <<E1("CancelCall", "canceller", now, j)>> IN
+       IF Bug = "dereg_in_place" /\ fst[j] = "pending" /\ stage[j] = "polling" /\ CancelFn # "none"
+         THEN /\ pc' = [pc EXCEPT ![Can(j)] = "c_scan"]
+              /\ cpos' = [cpos EXCEPT ![j] = 1] /\ cfound' = [cfound EXCEPT ![j] = FALSE]
+              /\ Emit(call) /\ UNCHANGED <<fst, stage>>
+         ELSE /\ CancelDecide(j, \E i \in DOMAIN descs : descs[i] = j, call) /\ UNCHANGED scan
+  /\ actor' = Can(j)
+  /\ UNCHANGED <<cfg, descs, lock, gate, evt, woken, calls, snap, pos, seen, wdl, edl, cdl, now>>
+
+G_CScan(j) == pc[Can(j)] = "c_scan"
+CScan(j) ==    \* (model bug only) one element of the live list per step
+  /\ G_CScan(j)
+  /\ IF cpos[j] > Len(descs)
+       THEN /\ CancelDecide(j, cfound[j], <<>>) /\ UNCHANGED scan
+       ELSE /\ cfound' = [cfound EXCEPT ![j] = @ \/ descs[cpos[j]] = j]
+            /\ cpos' = [cpos EXCEPT ![j] = @ + 1]
+            /\ NoEmit /\ UNCHANGED <<pc, fst, stage>>
   /\ actor' = Can(j)
   /\ UNCHANGED <<cfg, descs, lock, gate, evt, woken, calls, snap, pos, seen, wdl, edl, cdl, now>>
 
@@ -298,7 +323,7 @@ CDereg(j) ==   \* the cancelled future's first callback: _deregister_poll
   /\ pc' = [pc EXCEPT ![Can(j)] = "done"]
   /\ Emit(<<E2("CancelRet", "canceller", now, j, 1)>>)
   /\ actor' = Can(j)
-  /\ UNCHANGED <<cfg, lock, gate, evt, woken, fst, stage, calls, snap, pos, seen, wdl, edl, cdl, now>>
+  /\ UNCHANGED <<scan, cfg, lock, gate, evt, woken, fst, stage, calls, snap, pos, seen, wdl, edl, cdl, now>>
 
 \* ------------------------------------------------------------------ notify(), observer, time
 G_NWake == pc[NOTIF] = "n_sleep" /\ now >= NotifyAt
@@ -307,14 +332,14 @@ NWake ==
   /\ pc' = [pc EXCEPT ![NOTIF] = "n_set"]
   /\ Emit(<<E0("NotifyCall", "client", now)>>)
   /\ actor' = NOTIF
-  /\ UNCHANGED <<cfg, descs, lock, gate, evt, woken, fst, stage, calls, snap, pos, seen, wdl, edl, cdl, now>>
+  /\ UNCHANGED <<scan, cfg, descs, lock, gate, evt, woken, fst, stage, calls, snap, pos, seen, wdl, edl, cdl, now>>
 G_NSet == pc[NOTIF] = "n_set"
 NSet ==
   /\ G_NSet
   /\ SetEvent
   /\ pc' = [pc EXCEPT ![NOTIF] = "done"]
   /\ actor' = NOTIF /\ NoEmit
-  /\ UNCHANGED <<cfg, descs, lock, gate, fst, stage, calls, snap, pos, seen, wdl, edl, cdl, now>>
+  /\ UNCHANGED <<scan, cfg, descs, lock, gate, fst, stage, calls, snap, pos, seen, wdl, edl, cdl, now>>
 
 G_OEnd == pc[OBS] = "o_sleep" /\ now >= Horizon
 OEnd ==
@@ -322,11 +347,11 @@ OEnd ==
   /\ pc' = [pc EXCEPT ![OBS] = "done"]
   /\ Emit(<<E0("End", "main", now)>>)
   /\ actor' = OBS
-  /\ UNCHANGED <<cfg, descs, lock, gate, evt, woken, fst, stage, calls, snap, pos, seen, wdl, edl, cdl, now>>
+  /\ UNCHANGED <<scan, cfg, descs, lock, gate, evt, woken, fst, stage, calls, snap, pos, seen, wdl, edl, cdl, now>>
 
 AnyEnabled ==
   \/ \E j \in Jobs : \/ G_SSleep(j) \/ G_SGate(j) \/ G_EFinish(j) \/ G_EReg(j) \/ G_ERegSet(j) \/ G_EDereg(j)
-                     \/ G_CStart(j) \/ G_CDereg(j)
+                     \/ G_CStart(j) \/ G_CScan(j) \/ G_CDereg(j)
   \/ G_LSnap \/ G_LCall \/ G_LDereg \/ G_LRDereg \/ G_LEnter \/ G_LWake \/ G_LClear \/ G_NWake \/ G_NSet \/ G_OEnd
 
 Deadlines ==
@@ -342,11 +367,11 @@ Tick ==
   /\ ~AnyEnabled /\ Deadlines # {}
   /\ now' = CHOOSE d \in Deadlines : \A x \in Deadlines : d <= x
   /\ actor' = <<"tick", 0>>
-  /\ UNCHANGED <<cfg, pc, descs, lock, gate, evt, woken, fst, stage, calls, snap, pos, seen, wdl, edl, cdl, obs, viol, hist>>
+  /\ UNCHANGED <<scan, cfg, pc, descs, lock, gate, evt, woken, fst, stage, calls, snap, pos, seen, wdl, edl, cdl, obs, viol, hist>>
 
 Next ==
   \/ \E j \in Jobs : \/ SSleep(j) \/ SGate(j) \/ EFinish(j) \/ EReg(j) \/ ERegSet(j) \/ EDereg(j)
-                     \/ CStart(j) \/ CDereg(j)
+                     \/ CStart(j) \/ CScan(j) \/ CDereg(j)
   \/ LSnap \/ LCall \/ LDereg \/ LRDereg \/ LEnter \/ LWake \/ LClear \/ NWake \/ NSet \/ OEnd \/ Tick
 
 Spec == Init /\ [][Next]_vars
@@ -355,5 +380,5 @@ ContractHolds == viol = "ok"
 \* every registered descriptor belongs to a future that is still unresolved or is being deregistered right now
 NoStaleDescriptorAtEnd == pc[OBS] = "done" => \A i \in DOMAIN descs : fst[descs[i]] = "pending"
 StopAtHorizon == now <= Horizon
-View == <<cfg, pc, descs, lock, gate, evt, woken, fst, stage, calls, snap, pos, seen, wdl, edl, cdl, now, obs, viol>>
+View == <<cfg, pc, descs, lock, gate, evt, woken, fst, stage, calls, snap, pos, seen, wdl, edl, cdl, now, obs, viol, scan>>
 =============================================================================
